@@ -259,12 +259,12 @@ def link_b(ctx):
             return [(st, Top(ret_ty(eng_, site), "ev"))]
         m = re.search(r"HashMap::<.*>::(entry|insert|get|contains_key|get_mut|remove)$", q)
         if m and args:
-            loc = args[0].loc if isinstance(args[0], Ref) else None
+            loc = (args[0].loc, tuple(args[0].path)) if isinstance(args[0], Ref) else None
             sty = F.ty_s(f["self_ty"]) if f.get("self_ty") is not None else ""
             tys = [F.ty_s(a) for a in f.get("args", []) if isinstance(a, int)]
             maps.append({"op": m.group(1), "map": loc, "ty": sty or " ".join(tys), "key": labels(eng_, st, args[1]) if len(args) > 1 else [], "val": labels(eng_, st, args[2]) if len(args) > 2 else [], "fn": fr.path})
         if q == TI or p == TI:
-            calls.append({"ref": labels(eng_, st, args[0]), "signals": args[1].loc if len(args) > 1 and isinstance(args[1], Ref) else None, "codings": args[2].loc if len(args) > 2 and isinstance(args[2], Ref) else None})
+            calls.append({"ref": labels(eng_, st, args[0]), "signals": (args[1].loc, tuple(args[1].path)) if len(args) > 1 and isinstance(args[1], Ref) else None, "codings": (args[2].loc, tuple(args[2].path)) if len(args) > 2 and isinstance(args[2], Ref) else None})
         if re.search(r"Vec::<.*>::push$", q) and len(args) > 1 and isinstance(args[1], Struct) and args[1].ty is None and len(args[1].fields) >= 2:
             calls.append({"push": fr.path, "pos": [labels(eng_, st, x) for x in args[1].fields]})
         return None
@@ -279,7 +279,7 @@ def link_b(ctx):
     closures = {}
 
     def on_closure(eng_, st, fr, rv, ops):
-        closures[rv["def"]] = [o.loc if isinstance(o, Ref) else None for o in ops]
+        closures[rv["def"]] = [(o.loc, tuple(o.path)) if isinstance(o, Ref) else None for o in ops]
 
     eng.on_call = on_call
     eng.on_agg = on_agg
@@ -571,7 +571,7 @@ def check(ctx):
                 R.notes.append("%s: %s carries no tracked event field (not decided)" % (rule, what))
             continue
         got = resolve_all(labs, resolve)
-        if got is None or not got:
+        if got is None or not got or any(g[2].endswith("attr:?") for g in got):
             R.notes.append("%s: %s carries event field(s) %s whose origin in Reader::read_event is not tracked (not decided)" % (rule, what, sorted(labs)))
             continue
         resolved.append((rule, key, what, labs, want, unl, got))
@@ -581,7 +581,9 @@ def check(ctx):
         extras = sorted(g for g in got - {want} if g[1] not in ins)
         bad_extra = sorted(g for g in got - {want} if g[1] in ins)
         k = "%s|%s" % (READ, key)
-        if want in got and not bad_extra and not unl:
+        if unl and want in got and not bad_extra:
+            R.notes.append("%s: some constructions of %s carry a value whose origin is not tracked (those are not decided)" % (rule, what))
+        if want in got and not bad_extra:
             R.obligation(rule, k, "discharged", "%s <- event field(s) %s <- <%s> %s, record closed by </%s>%s" % (what, sorted(labs), want[1], want[2], want[0], (" (slot shared with %s, which cannot occur inside <%s>)" % (extras, want[0])) if extras else ""))
             R.instance(rule, "%s <- <%s> %s in <%s>" % (what, want[1], want[2], want[0]))
         else:
